@@ -16,6 +16,7 @@ import (
 	"fmt"
 	"net/http"
 	"net/http/httptest"
+	"reflect"
 	"sort"
 	"strings"
 	"sync"
@@ -30,7 +31,7 @@ import (
 type Op struct {
 	K  string `json:"k"` // put del bcast hb sync attach deliver disc
 	ID int    `json:"id,omitempty"`
-	V  int    `json:"v,omitempty"`
+	V  int64  `json:"v,omitempty"` // encoded full record (base 3, one digit per SessionState field)
 	N  int    `json:"n,omitempty"` // repeat count (bursts); 0 = once
 }
 type Case struct {
@@ -129,29 +130,123 @@ func (w *world) disconnect() {
 	w.w, w.inHand, w.chanCount = nil, nil, 0
 }
 
-func session(id, v int) *ha.SessionState {
-	return &ha.SessionState{SessionID: sid(id), SubscriberID: fmt.Sprintf("sub-%d", id), MAC: fmt.Sprintf("02:00:00:00:00:%02x", id),
-		IP: fmt.Sprintf("10.0.%d.%d", id, v), VLAN: 100 + id, SessionType: "ipoe", State: "active", BytesIn: uint64(v)}
+// ---- the whole SessionState record as the session value ----
+// Every field of ha.SessionState except the key takes one of three values {zero, A, B} (bool: two);
+// a record is encoded as the base-3 number of its field choices, in struct order. The encoding is
+// driven by reflection so that a field added to the struct is covered (or, for an unknown kind,
+// reported) without touching the driver. A stored field holding anything else is flagged.
+var sessType = reflect.TypeOf(ha.SessionState{})
+
+const badValue = 999999999999
+
+func fieldChoice(i int, f reflect.StructField, trit int) (reflect.Value, bool) {
+	v := reflect.New(f.Type).Elem()
+	if trit == 0 {
+		return v, true
+	}
+	switch {
+	case f.Type == reflect.TypeOf(time.Time{}):
+		v.Set(reflect.ValueOf(time.Unix(int64(1700000000+1000*trit+i), 0).UTC()))
+	case f.Type.Kind() == reflect.String:
+		v.SetString(fmt.Sprintf("%s-%c", strings.ToLower(f.Name), 'A'+byte(trit-1)))
+	case f.Type.Kind() == reflect.Bool:
+		v.SetBool(true)
+	case f.Type.Kind() >= reflect.Int && f.Type.Kind() <= reflect.Int64:
+		v.SetInt(int64(100*trit + i))
+	case f.Type.Kind() >= reflect.Uint && f.Type.Kind() <= reflect.Uint64:
+		v.SetUint(uint64(100*trit + i))
+	default:
+		return v, false
+	}
+	return v, true
 }
 
-// table projects a store onto ids 0..nIDs-1 -> BytesIn (the value), flagging anything else
+func sameField(a, b reflect.Value) bool {
+	if t, ok := a.Interface().(time.Time); ok {
+		return t.Equal(b.Interface().(time.Time))
+	}
+	return a.Interface() == b.Interface()
+}
+
+// session builds the record encoded by v for session id (the key is the only per-id field)
+func session(id int, v int64) *ha.SessionState {
+	s := &ha.SessionState{}
+	rv := reflect.ValueOf(s).Elem()
+	for i := 0; i < sessType.NumField(); i++ {
+		f := sessType.Field(i)
+		if f.Name == "SessionID" {
+			continue
+		}
+		trit := int(v % 3)
+		v /= 3
+		fv, ok := fieldChoice(i, f, trit)
+		if !ok {
+			panic("SessionState field of unsupported kind: " + f.Name)
+		}
+		rv.Field(i).Set(fv)
+	}
+	s.SessionID = sid(id)
+	return s
+}
+
+// encode is the inverse; badValue when a field holds none of its three values
+func encode(s *ha.SessionState) int64 {
+	rv := reflect.ValueOf(s).Elem()
+	var v, pow int64 = 0, 1
+	for i := 0; i < sessType.NumField(); i++ {
+		f := sessType.Field(i)
+		if f.Name == "SessionID" {
+			continue
+		}
+		trit := -1
+		for t := 0; t < 3; t++ {
+			fv, _ := fieldChoice(i, f, t)
+			if sameField(rv.Field(i), fv) {
+				trit = t
+				break
+			}
+		}
+		if trit < 0 {
+			return badValue
+		}
+		v += int64(trit) * pow
+		pow *= 3
+	}
+	return v
+}
+
+func canon(v int64) int64 { return encode(session(0, v)) }
+
+func nFields() int { return sessType.NumField() - 1 }
+
+// the record whose every field is A (1), B (2), or the given pattern repeated
+func pattern(trits ...int) int64 {
+	var v, pow int64 = 0, 1
+	for i := 0; i < nFields(); i++ {
+		v += int64(trits[i%len(trits)]) * pow
+		pow *= 3
+	}
+	return canon(v)
+}
+
+// table projects a store onto ids 0..nIDs-1 -> encoded FULL record, flagging anything else
 func table(st *ha.InMemorySessionStore) string {
 	var items []string
 	n := 0
 	for id := 0; id < nIDs; id++ {
 		if s, ok := st.GetSession(sid(id)); ok {
 			n++
-			if s.IP != fmt.Sprintf("10.0.%d.%d", id, s.BytesIn) || s.SessionID != sid(id) {
-				items = append(items, "Some 999999") // payload fields disagree
+			if s.SessionID != sid(id) {
+				items = append(items, fmt.Sprintf("Some %d", int64(badValue)))
 			} else {
-				items = append(items, fmt.Sprintf("Some %d", s.BytesIn))
+				items = append(items, fmt.Sprintf("Some %d", encode(s)))
 			}
 		} else {
 			items = append(items, "None")
 		}
 	}
 	if st.GetSessionCount() != n {
-		items = append(items, "Some 888888") // a session outside the id universe
+		items = append(items, "Some 888888888888") // a session outside the id universe
 	}
 	return vh.List(items)
 }
@@ -162,13 +257,13 @@ func recvTable(s *ha.HASyncer) string {
 	for id := 0; id < nIDs; id++ {
 		if x, ok := s.GetReceivedSession(sid(id)); ok {
 			n++
-			items = append(items, fmt.Sprintf("Some %d", x.BytesIn))
+			items = append(items, fmt.Sprintf("Some %d", encode(x)))
 		} else {
 			items = append(items, "None")
 		}
 	}
 	if len(s.GetAllReceivedSessions()) != n {
-		items = append(items, "Some 888888")
+		items = append(items, "Some 888888888888")
 	}
 	return vh.List(items)
 }
@@ -180,7 +275,7 @@ func coqMsg(m *ha.SyncMessage) string {
 	}
 	switch m.Type {
 	case ha.SyncTypeAdd, ha.SyncTypeUpdate:
-		return fmt.Sprintf("(MPut %d %d %d)", id, m.Sessions[0].BytesIn, m.SequenceNum)
+		return fmt.Sprintf("(MPut %d %d %d)", id, encode(&m.Sessions[0]), m.SequenceNum)
 	case ha.SyncTypeDelete:
 		return fmt.Sprintf("(MDel %d %d)", id, m.SequenceNum)
 	case ha.SyncTypeHeartbeat:
@@ -204,6 +299,7 @@ func (w *world) apply(o Op) (op string, res string) {
 	res = "RNone"
 	switch o.K {
 	case "put":
+		o.V = canon(o.V)
 		op = fmt.Sprintf("Put %d %d", o.ID, o.V)
 		s := session(o.ID, o.V)
 		typ := ha.SyncTypeAdd
@@ -399,10 +495,12 @@ func run(c Case, extraTags ...string) (vh.Case, string) {
 }
 
 func alphabet(ids, vals int) []Op {
+	// value 1: every field non-zero (A); value 2: every other field back to zero, the rest B
+	values := []int64{pattern(1), pattern(0, 2), pattern(2, 1, 0)}
 	var a []Op
 	for id := 0; id < ids; id++ {
-		for v := 1; v <= vals; v++ {
-			a = append(a, Op{K: "put", ID: id, V: v})
+		for v := 0; v < vals; v++ {
+			a = append(a, Op{K: "put", ID: id, V: values[v]})
 		}
 		a = append(a, Op{K: "del", ID: id})
 	}
@@ -410,6 +508,29 @@ func alphabet(ids, vals int) []Op {
 		a = append(a, Op{K: k})
 	}
 	return a
+}
+
+// genVal: every field independently zero / A / B; often a neighbour of the previous value with a
+// few fields changed (half of the changes reset a field to zero)
+func genVal(r *vh.Rng, prev int64) int64 {
+	var v, pow int64 = 0, 1
+	near := prev > 0 && r.Chance(1, 2)
+	for i := 0; i < nFields(); i++ {
+		t := int64(r.Intn(3))
+		if near {
+			t = (prev / pow) % 3
+			if r.Chance(1, 5) {
+				if t != 0 && r.Bool() {
+					t = 0
+				} else {
+					t = int64(r.Intn(3))
+				}
+			}
+		}
+		v += t * pow
+		pow *= 3
+	}
+	return canon(v)
 }
 
 func parseOps(s string) []Op {
@@ -468,10 +589,13 @@ func genRandom(r *vh.Rng, maxLen int, guarded bool) Case {
 	n := 4 + r.Intn(maxLen)
 	var ops []Op
 	link := "down"
+	last := map[int]int64{}
 	for len(ops) < n {
 		switch x := r.Intn(24); {
 		case x < 6:
-			ops = append(ops, Op{K: "put", ID: r.Intn(nIDs), V: 1 + r.Intn(5)})
+			id := r.Intn(nIDs)
+			last[id] = genVal(r, last[id])
+			ops = append(ops, Op{K: "put", ID: id, V: last[id]})
 		case x < 9:
 			ops = append(ops, Op{K: "del", ID: r.Intn(nIDs)})
 		case x < 13:
@@ -609,6 +733,7 @@ func (w *e2eWorld) apply(o Op) []string {
 	case "put", "del":
 		var m string
 		if o.K == "put" {
+			o.V = canon(o.V)
 			s := session(o.ID, o.V)
 			typ := ha.SyncTypeAdd
 			if _, ok := w.aStore.GetSession(s.SessionID); ok {
@@ -695,11 +820,14 @@ func runE2E(c Case, extraTags ...string) vh.Case {
 func genE2E(r *vh.Rng) Case {
 	c := Case{E2E: true}
 	link := "down"
+	last := map[int]int64{}
 	chg := func() {
 		if r.Chance(1, 3) {
 			c.Ops = append(c.Ops, Op{K: "del", ID: r.Intn(nIDs)})
 		} else {
-			c.Ops = append(c.Ops, Op{K: "put", ID: r.Intn(nIDs), V: 1 + r.Intn(5)})
+			id := r.Intn(nIDs)
+			last[id] = genVal(r, last[id])
+			c.Ops = append(c.Ops, Op{K: "put", ID: id, V: last[id]})
 		}
 	}
 	for k := r.Intn(3); k > 0; k-- {
@@ -794,7 +922,7 @@ func main() {
 	}
 	ex := explore(depth, alphabet(2, 2), seedPrefixes)
 	vh.Emit(cfg, "exhaustive", header, footer, ex, map[string]interface{}{"exhaustive": true,
-		"exhaustive_note": fmt.Sprintf("breadth-first over the 12-operation alphabet (2 ids x 2 values) to depth %d from the initial state and %d seeded states; a sequence is extended only when it reaches a new implementation-state fingerprint (both stores, received map, queue lengths, link)", depth, len(seedPrefixes)),
+		"exhaustive_note": fmt.Sprintf("breadth-first over the 12-operation alphabet (2 ids x 2 full-record values: all fields non-zero; every other field reset to zero) to depth %d from the initial state and %d seeded states; a sequence is extended only when it reaches a new implementation-state fingerprint (both stores, received map, queue lengths, link)", depth, len(seedPrefixes)),
 		"pending_cap":     pcap, "client_cap_plus_in_hand": ccap})
 	r := vh.NewRng(cfg.Seed)
 	var cases, guarded []vh.Case
